@@ -152,15 +152,15 @@ type c27End struct{ kind string } // panic | cutoff
 
 // c27Exec configures a run.
 type c27Exec struct {
-	c       *Ctx
-	opaque  map[string]bool // short callee names that are never interpreted
-	inline  map[string]bool // short callee names that are always interpreted
+	c      *Ctx
+	opaque map[string]bool // short callee names that are never interpreted
+	inline map[string]bool // short callee names that are always interpreted
 	// inlineAll: every helper of the root package is interpreted (small root
 	// functions whose helpers cannot multiply the paths)
 	inlineAll bool
-	model   func(p *c27Path, name string, call ssa.CallInstruction, args []c27Val) (c27Val, bool)
-	sumLen  int64
-	maxPath int
+	model     func(p *c27Path, name string, call ssa.CallInstruction, args []c27Val) (c27Val, bool)
+	sumLen    int64
+	maxPath   int
 }
 
 // c27Path is the state of one explored path.
@@ -473,8 +473,17 @@ func c27BufContent(b *c27Buf, lo, hi c27Val) string {
 	if len(b.log) == 1 && b.log[0].whole && full {
 		return b.log[0].src
 	}
-	if x, ok := c27BigEndian32(b); ok && full {
-		return "u32be(" + x + ")"
+	if s, ok := c27Tiled(b, lo, hi); ok {
+		return s
+	}
+	// one value fills the buffer: a part of the buffer is that part of the value
+	if len(b.log) == 1 && b.log[0].whole && lo.k == c27Int {
+		if c27Render(hi) == c27Render(b.length) {
+			return c27SliceTerm(b.log[0].src, lo.n, -1, -1)
+		}
+		if hi.k == c27Int {
+			return c27SliceTerm(b.log[0].src, lo.n, hi.n, -1)
+		}
 	}
 	var xs []string
 	for _, w := range b.log {
@@ -482,9 +491,122 @@ func c27BufContent(b *c27Buf, lo, hi c27Val) string {
 	}
 	s := "buf[" + c27Render(b.length) + "]{" + strings.Join(xs, ";") + "}"
 	if !full {
-		s += "[" + c27Render(lo) + ":" + c27Render(hi) + "]"
+		h := c27Render(hi)
+		if h == c27Render(b.length) {
+			h = "" // to the end
+		}
+		s += "[" + c27Render(lo) + ":" + h + "]"
 	}
 	return s
+}
+
+// c27Tiled: when every write into the buffer has a known offset and length, the
+// content of buf[lo:hi] is the concatenation of what the bytes hold, in address
+// order: later writes replace earlier ones, unwritten bytes are zero, a field
+// that is only partly inside [lo,hi) contributes that part. Four single bytes
+// byte(x>>24), byte(x>>16), byte(x>>8), byte(x) in a row are u32be(x).
+func c27Tiled(b *c27Buf, lo, hi c27Val) (string, bool) {
+	if lo.k != c27Int || hi.k != c27Int || b.length.k != c27Int {
+		return "", false
+	}
+	type seg struct {
+		a, z   int64 // [a, z) in the buffer
+		src    string
+		sa, sn int64 // bytes [sa, sa+(z-a)) of src, which is sn long
+	}
+	var segs []seg
+	for _, w := range b.log {
+		if w.off.k != c27Int || w.n.k != c27Int {
+			return "", false
+		}
+		if w.n.n == 0 {
+			continue
+		}
+		na, nz := w.off.n, w.off.n+w.n.n
+		var keep []seg
+		for _, s := range segs {
+			if s.z <= na || s.a >= nz {
+				keep = append(keep, s)
+				continue
+			}
+			if s.a < na {
+				keep = append(keep, seg{s.a, na, s.src, s.sa, s.sn})
+			}
+			if s.z > nz {
+				keep = append(keep, seg{nz, s.z, s.src, s.sa + (nz - s.a), s.sn})
+			}
+		}
+		segs = append(keep, seg{na, nz, w.src, 0, w.n.n})
+	}
+	sort.Slice(segs, func(i, j int) bool { return segs[i].a < segs[j].a })
+	var parts []string
+	pos := lo.n
+	zeros := func(n int64) {
+		if n > 0 {
+			parts = append(parts, "zeros["+strconv.FormatInt(n, 10)+"]")
+		}
+	}
+	for i := 0; i < len(segs); i++ {
+		s := segs[i]
+		if s.z <= lo.n || s.a >= hi.n {
+			continue
+		}
+		a, z := max(s.a, lo.n), min(s.z, hi.n)
+		zeros(a - pos)
+		// big-endian word written byte by byte
+		if i+3 < len(segs) && a == s.a && s.z-s.a == 1 && segs[i+3].z <= hi.n {
+			ok := true
+			var bs [4]string
+			for k := 0; k < 4; k++ {
+				t := segs[i+k]
+				if t.a != s.a+int64(k) || t.z-t.a != 1 || t.sn != 1 {
+					ok = false
+					break
+				}
+				bs[k] = t.src
+			}
+			if ok {
+				if x, isWord := c27Word(bs); isWord {
+					parts = append(parts, "u32be("+x+")")
+					pos = s.a + 4
+					i += 3
+					continue
+				}
+			}
+		}
+		parts = append(parts, c27SliceTerm(s.src, s.sa+(a-s.a), s.sa+(z-s.a), s.sn))
+		pos = z
+	}
+	zeros(hi.n - pos)
+	if len(parts) == 0 {
+		return "zeros[0]", true
+	}
+	return strings.Join(parts, "||"), true
+}
+
+// c27Word: the four byte terms are byte(x>>24), byte(x>>16), byte(x>>8), byte(x).
+func c27Word(at [4]string) (string, bool) {
+	x := at[3]
+	if x == "" {
+		return "", false
+	}
+	var v int64
+	known := true
+	for _, s := range at {
+		n, err := strconv.ParseInt(s, 10, 64)
+		if err != nil || n < 0 || n > 255 {
+			known = false
+			break
+		}
+		v = v<<8 | n
+	}
+	if known {
+		return strconv.FormatInt(v, 10), true
+	}
+	if at[0] != "("+x+">>24)" || at[1] != "("+x+">>16)" || at[2] != "("+x+">>8)" {
+		return "", false
+	}
+	return x, true
 }
 
 // c27BigEndian32: a 4-byte buffer written as byte(x>>24), byte(x>>16),
@@ -1142,6 +1264,12 @@ func (p *c27Path) binop(op token.Token, a, b c27Val, t types.Type) c27Val {
 		}
 	}
 	if op == token.EQL || op == token.NEQ {
+		// a freshly constructed error is not nil
+		for _, pr := range [][2]c27Val{{a, b}, {b, a}} {
+			if pr[0].k == c27Nil && pr[1].k == c27Sym && (strings.HasPrefix(pr[1].tag, "fmt.Errorf@") || strings.HasPrefix(pr[1].tag, "errors.New@")) && strings.HasSuffix(pr[1].tag, ")") {
+				return c27B(op == token.NEQ)
+			}
+		}
 		an, ak := c27IsNilable(a)
 		bn, bk := c27IsNilable(b)
 		if ak && bk && (an || bn) {
@@ -1873,12 +2001,59 @@ func (p *c27Path) sshModel(f *c27Frame, name string, x *ssa.Call, args []c27Val)
 	return c27Val{}, false
 }
 
-// c27Canon brings a hash-input sequence into a canonical form, so that the
-// same byte stream written with different helpers compares equal:
-// raw(a||b) = raw(a),raw(b); raw(mpint(x)) = mpint(x); raw(string(x)) = string(x);
-// u32(len(x)),raw(x) = string(x).
+// c27Canon brings a hash-input sequence into a canonical form: the input is a
+// BYTE STREAM, so how it was cut into Write calls and buffers does not matter:
+// raw(a||b) = raw(a),raw(b); raw(x[a:b]),raw(x[b:c]) = raw(x[a:c]) and a slice
+// that covers x is x; raw(mpint(x)) = mpint(x); raw(string(x)) = string(x);
+// raw(u32be(x)) = u32(x); u32(len(x)),raw(x) = string(x).
 func c27Canon(evs []c27Ev) []c27Ev {
 	var out []c27Ev
+	var push func(part string, at ssa.Instruction, ln string)
+	push = func(part string, at ssa.Instruction, ln string) {
+		// two adjacent runs of zero bytes
+		if n := len(out); n > 0 && out[n-1].kind == "raw" && strings.HasPrefix(part, "zeros[") && strings.HasPrefix(out[n-1].arg, "zeros[") {
+			x, e1 := strconv.ParseInt(strings.TrimSuffix(out[n-1].arg[6:], "]"), 10, 64)
+			y, e2 := strconv.ParseInt(strings.TrimSuffix(part[6:], "]"), 10, 64)
+			if e1 == nil && e2 == nil {
+				at0 := out[n-1].at
+				out = out[:n-1]
+				push("zeros["+strconv.FormatInt(x+y, 10)+"]", at0, strconv.FormatInt(x+y, 10))
+				return
+			}
+		}
+		// two adjacent slices of the same byte string
+		if n := len(out); n > 0 && out[n-1].kind == "raw" {
+			if m, ok := c27JoinSlices(out[n-1].arg, part); ok {
+				at0, ln0 := out[n-1].at, ""
+				x, e1 := strconv.ParseInt(out[n-1].ln, 10, 64)
+				y, e2 := strconv.ParseInt(ln, 10, 64)
+				qs := c27SplitCat(m)
+				if e1 == nil && e2 == nil && len(qs) == 1 {
+					ln0 = strconv.FormatInt(x+y, 10)
+				}
+				out = out[:n-1]
+				for _, q := range qs {
+					push(q, at0, ln0)
+				}
+				return
+			}
+		}
+		switch {
+		case strings.HasPrefix(part, "mpint(") && c27Balanced(part[5:]):
+			out = append(out, c27Ev{kind: "mpint", arg: part[6 : len(part)-1], at: at})
+		case strings.HasPrefix(part, "string(") && c27Balanced(part[6:]):
+			out = append(out, c27Ev{kind: "string", arg: part[7 : len(part)-1], at: at})
+		case strings.HasPrefix(part, "u32be(") && c27Balanced(part[5:]):
+			out = append(out, c27Ev{kind: "u32", arg: part[6 : len(part)-1], at: at})
+		case part == "zeros[0]" || part == "nil":
+		default:
+			if n := len(out); n > 0 && out[n-1].kind == "u32" && (out[n-1].arg == "len("+part+")" || (ln != "" && out[n-1].arg == ln)) {
+				out[n-1] = c27Ev{kind: "string", arg: part, at: at}
+			} else {
+				out = append(out, c27Ev{kind: "raw", arg: part, at: at, ln: ln})
+			}
+		}
+	}
 	for _, e := range evs {
 		if e.kind == "raw" {
 			if n := len(out); n > 0 && out[n-1].kind == "u32" && (out[n-1].arg == "len("+e.arg+")" || (e.ln != "" && out[n-1].arg == e.ln)) {
@@ -1887,27 +2062,77 @@ func c27Canon(evs []c27Ev) []c27Ev {
 			}
 			parts := c27SplitCat(e.arg)
 			for _, part := range parts {
-				switch {
-				case strings.HasPrefix(part, "mpint(") && c27Balanced(part[5:]):
-					out = append(out, c27Ev{kind: "mpint", arg: part[6 : len(part)-1], at: e.at})
-				case strings.HasPrefix(part, "string(") && c27Balanced(part[6:]):
-					out = append(out, c27Ev{kind: "string", arg: part[7 : len(part)-1], at: e.at})
-				case strings.HasPrefix(part, "u32be(") && c27Balanced(part[5:]):
-					out = append(out, c27Ev{kind: "u32", arg: part[6 : len(part)-1], at: e.at})
-				case part == "zeros[0]" || part == "nil":
-				default:
-					if n := len(out); n > 0 && out[n-1].kind == "u32" && (out[n-1].arg == "len("+part+")" || (len(parts) == 1 && e.ln != "" && out[n-1].arg == e.ln)) {
-						out[n-1] = c27Ev{kind: "string", arg: part, at: e.at}
-					} else {
-						out = append(out, c27Ev{kind: "raw", arg: part, at: e.at})
-					}
+				ln := ""
+				if len(parts) == 1 {
+					ln = e.ln
 				}
+				push(part, e.at, ln)
 			}
 			continue
 		}
 		out = append(out, e)
 	}
 	return out
+}
+
+// c27SliceOf parses "base[a:b]" (a, b plain terms, possibly empty).
+func c27SliceOf(s string) (base, lo, hi string, ok bool) {
+	if !strings.HasSuffix(s, "]") {
+		return
+	}
+	i := strings.LastIndex(s, "[")
+	if i <= 0 {
+		return
+	}
+	inner := s[i+1 : len(s)-1]
+	j := strings.Index(inner, ":")
+	if j < 0 || strings.ContainsAny(inner, "[](){}|,;") || strings.Count(inner, ":") != 1 {
+		return
+	}
+	return s[:i], inner[:j], inner[j+1:], true
+}
+
+// c27SliceTerm: the term for bytes [a, b) of src, which is n bytes long (n < 0: unknown; b < 0: to the end).
+func c27SliceTerm(src string, a, b, n int64) string {
+	if a == 0 && (b < 0 || (n >= 0 && b == n)) {
+		return src
+	}
+	if len(c27SplitCat(src)) > 1 {
+		src = "(" + src + ")"
+	}
+	// a slice of a slice composes
+	if base, lo, hi, ok := c27SliceOf(src); ok {
+		l0, err := strconv.ParseInt("0"+lo, 10, 64)
+		if err == nil {
+			h := ""
+			if b >= 0 && !(n >= 0 && b == n && hi == "") {
+				h = strconv.FormatInt(l0+b, 10)
+			} else {
+				h = hi
+			}
+			return base + "[" + strconv.FormatInt(l0+a, 10) + ":" + h + "]"
+		}
+	}
+	if b < 0 || (n >= 0 && b == n) {
+		return src + "[" + strconv.FormatInt(a, 10) + ":]"
+	}
+	return src + "[" + strconv.FormatInt(a, 10) + ":" + strconv.FormatInt(b, 10) + "]"
+}
+
+// c27JoinSlices: x[a:b] followed by x[b:c] is x[a:c]; from 0 to the end it is x.
+func c27JoinSlices(p, q string) (string, bool) {
+	b1, lo1, hi1, ok1 := c27SliceOf(p)
+	b2, lo2, hi2, ok2 := c27SliceOf(q)
+	if !ok1 || !ok2 || b1 != b2 || hi1 == "" || hi1 != lo2 {
+		return "", false
+	}
+	if (lo1 == "" || lo1 == "0") && hi2 == "" {
+		if strings.HasPrefix(b1, "(") && c27Balanced(b1) {
+			return b1[1 : len(b1)-1], true
+		}
+		return b1, true
+	}
+	return b1 + "[" + lo1 + ":" + hi2 + "]", true
 }
 
 // c27Balanced: s is one parenthesised group "( ... )" spanning the whole string.
